@@ -46,8 +46,52 @@ PREPENDS_BAD = ["def (:\n", "x = = 1\n", "  indented = 1\n"]
 PREPENDS_UNIMPORTABLE = ["import verif_no_such_module_xyz\n", "from os import verif_no_such_name\n"]
 
 
-def gen_obj(rng, kind, name, doc_style, annotated, n_params, defaults, ret, class_doc=True):
-    """source lines of one function or one class with __init__, plus its features"""
+# definitions nested inside a mapping entry's object (none of them is an entry, none changes the entry's interface):
+# for a class, a helper class with an `__init__` of its own before / after the class's `__init__`, two levels deep, or
+# local to a method, and a function local to a method; for a function, a local function / a local class with `__init__`
+NESTED_IN_CLASS = ["class-before", "class-after", "class-after", "class-deep", "class-in-method", "func-in-method",
+                   "class-before+func-in-method"]
+NESTED_IN_FUNCTION = ["inner-func", "inner-func", "inner-class"]
+NESTED_CLASS_NAMES = ["Options", "Meta", "_Helper", "State"]
+
+
+def _nested_init(rng, ind, taken, doc_style, annotated, name="__init__", first="self"):
+    """lines of a nested function (an `__init__` by default) with 1..2 parameters of its own, none of them in `taken`"""
+    pool = [a for a in ARGS if a not in taken] or ["q0", "q1"]
+    ps = rng.sample(pool, min(len(pool), rng.choice([1, 2, 2])))
+    sig = [first] if first else []
+    for q in ps:
+        t, ds = rng.choice(TYPED)
+        sig.append(q + ((": %s = %s" % (t, rng.choice(ds))) if annotated else ("=%s" % rng.choice(ds))))
+    lines = [ind + "def %s(%s):" % (name, ", ".join(sig))]
+    if doc_style != "none":
+        lines += [ind + '    """', ind + "    Set up the helper."]
+        if doc_style in ("untyped", "typed"):
+            for q in ps:
+                lines += ["", ind + "    :param %s: the %s" % (q, q)]
+                if doc_style == "typed":
+                    lines.append(ind + "    :type %s: ```int```" % q)
+        lines.append(ind + '    """')
+    if first:
+        lines += [ind + "    %s.%s = %s" % (first, q, q) for q in ps]
+    else:
+        lines.append(ind + "    return %s" % ps[0])
+    return lines
+
+
+def _nested_class(rng, ind, taken, doc_style, annotated, deep=False):
+    cname = rng.choice(NESTED_CLASS_NAMES)
+    lines = [ind + "class %s(object):" % cname, ind + '    """ Helper of the enclosing definition """', ""]
+    if deep:
+        lines += _nested_class(rng, ind + "    ", taken, doc_style, annotated) + [""]
+    lines += _nested_init(rng, ind + "    ", taken, doc_style, annotated)
+    return lines
+
+
+def gen_obj(rng, kind, name, doc_style, annotated, n_params, defaults, ret, class_doc=True, nested=None):
+    """source lines of one function or one class with __init__, plus its features.
+    nested (default None: nothing nested, the stream of existing callers is unchanged): one of NESTED_IN_CLASS /
+    NESTED_IN_FUNCTION"""
     params = rng.sample(ARGS, n_params)
     ptypes = [rng.choice(TYPED) for _ in params]
     ndef = rng.randint(0, n_params) if defaults else 0
@@ -77,9 +121,18 @@ def gen_obj(rng, kind, name, doc_style, annotated, n_params, defaults, ret, clas
                 doc.append(ind + ":rtype: ```int```")
         doc.append(ind + '"""')
     lines = []
+    nested = nested or ""
+    ndoc = doc_style
+    if nested and rng.random() < 0.2:
+        ndoc = rng.choice(["none", "summary", "untyped", "typed"])
     if kind == "function":
         lines.append("def %s(%s)%s:" % (name, ", ".join(sig), " -> int" if (annotated and ret) else ""))
         lines += doc
+        if "inner-func" in nested:
+            lines += _nested_init(rng, "    ", params, ndoc, annotated, name=rng.choice(["inner", "_check", "__init__"]),
+                                  first=None) + [""]
+        if "inner-class" in nested:
+            lines += _nested_class(rng, "    ", params, ndoc, annotated) + [""]
         lines.append("    return 1" if ret else "    pass")
     else:
         lines.append("class %s(object):" % name)
@@ -88,14 +141,28 @@ def gen_obj(rng, kind, name, doc_style, annotated, n_params, defaults, ret, clas
             lines.append("    The %s class." % name)
             lines.append('    """')
             lines.append("")
+        if "class-before" in nested:
+            lines += _nested_class(rng, "    ", params, ndoc, annotated) + [""]
         lines.append("    def __init__(%s):" % ", ".join(["self"] + sig))
         lines += doc
         for p in params:
             lines.append("        self.%s = %s" % (p, p))
         if not params:
             lines.append("        pass")
+        if "class-after" in nested or "class-deep" in nested:
+            lines += [""] + _nested_class(rng, "    ", params, ndoc, annotated, deep="class-deep" in nested)
+        if "in-method" in nested:
+            lines += ["", "    def build(self):", '        """ Build it """']
+            if "class-in-method" in nested:
+                lines += _nested_class(rng, "        ", params, ndoc, annotated) + [""]
+            if "func-in-method" in nested:
+                lines += _nested_init(rng, "        ", params, ndoc, annotated,
+                                      name=rng.choice(["inner", "__init__"]), first=None) + [""]
+            lines.append("        return self")
     feat = dict(kind=kind, obj=name, doc_style=doc_style, annotated=annotated, params=params, ret=bool(ret),
                 class_doc=bool(class_doc), ndef=ndef)
+    if nested:
+        feat["nested"] = nested
     return lines, feat
 
 
@@ -121,7 +188,11 @@ def gen_input_module(rng, mostly_good=True, n_entries=None, kinds=None):
             n_params = rng.choice([0, 1, 2, 3])
             ret = kind == "function" and rng.random() < 0.4
             class_doc = rng.random() < 0.8
-        lines, feat = gen_obj(rng, kind, name, doc_style, annotated, n_params, rng.random() < 0.6, ret, class_doc)
+        nested = None
+        if rng.random() < 0.3:
+            nested = rng.choice(NESTED_IN_CLASS if kind == "class" else NESTED_IN_FUNCTION)
+        lines, feat = gen_obj(rng, kind, name, doc_style, annotated, n_params, rng.random() < 0.6, ret, class_doc,
+                              nested=nested)
         body += lines + ["", ""]
         key = name if rng.random() < 0.85 else rng.choice([name.lower() + "_k", "K" + name, name + "2"])
         entries.append({"key": key, "feat": feat})
